@@ -42,7 +42,13 @@ func c08ServeChunks(idx desync.Index, blob []byte) (*killStore, string, func(), 
 }
 
 func c08RunDesync(ks *killStore, killAt int, dir string, args ...string) (string, error) {
+	return c08RunDesyncIn(ks, killAt, dir, "", args...)
+}
+
+// c08RunDesyncIn: as c08RunDesync, with the command's working directory set to cwd (if not "").
+func c08RunDesyncIn(ks *killStore, killAt int, dir, cwd string, args ...string) (string, error) {
 	cmd := exec.Command(os.Getenv("VH_DESYNC"), args...)
+	cmd.Dir = cwd
 	cmd.Env = append(os.Environ(), "HOME="+dir)
 	ks.mu.Lock()
 	ks.requests, ks.killAt, ks.victim, ks.killed, ks.signal = nil, killAt, cmd, false, 0
@@ -218,7 +224,105 @@ func c08NoRoom(a vh.Args, r *vh.Result, c *c08Case) error {
 	return nil
 }
 
+// extract-seeddir: `extract -k --seed-dir D idx target` where D also holds the index being extracted and the
+// target next to it, with D, the index and the target spelled in different ways; killed at the k-th chunk
+// request, then the SAME command again: it must complete with the right output (the half-written target must
+// not be taken as a seed for itself).
+var c08Spellings = []struct{ name, seedDir, index, target string }{
+	{"same", ".", "v2.caibx", "v2"},
+	{"dot-vs-dotslash", ".", "./v2.caibx", "./v2"},
+	{"abs-vs-relative", "$D", "v2.caibx", "v2"},
+	{"trailing-slash", "./", "v2.caibx", "v2"},
+	{"abs-slash-vs-mixed", "$D/", "$D/v2.caibx", "./v2"},
+	{"relative-vs-abs", ".", "$D/v2.caibx", "$D/v2"},
+	{"dotdot-detour", "../work", "v2.caibx", "v2"},
+	{"symlinked-dir", "$L", "v2.caibx", "v2"},
+}
+
+func c08SeedDir(a vh.Args, r *vh.Result, c *c08Case) error {
+	if os.Getenv("VH_DESYNC") == "" {
+		return nil
+	}
+	desync.Digest = desync.SHA512256{}
+	defer func() { desync.Digest = desync.SHA256{} }()
+	rng := vh.NewRand(c.Seed)
+	blob := rng.Bytes(c.BlobLen)
+	idx := buildIndex(blob, randomSizes(rng, len(blob), 400))
+	idx.Index.FeatureFlags = desync.CaFormatSHA512256
+	root, err := lsFreshDir(a.Work, "seeddir")
+	if err != nil {
+		return err
+	}
+	d := filepath.Join(root, "work")
+	os.MkdirAll(d, 0755)
+	f, err := os.Create(filepath.Join(d, "v2.caibx"))
+	if err != nil {
+		return err
+	}
+	idx.WriteTo(f)
+	f.Close()
+	var sp struct{ name, seedDir, index, target string }
+	for _, x := range c08Spellings {
+		if x.name == c.Signal { // Signal carries the spelling's name
+			sp = x
+		}
+	}
+	lnk := filepath.Join(root, "lnk")
+	os.Symlink(d, lnk)
+	sub := func(x string) string { return strings.ReplaceAll(strings.ReplaceAll(x, "$D", d), "$L", lnk) }
+	ks, url, stop, err := c08ServeChunks(idx, blob)
+	if err != nil {
+		return err
+	}
+	defer stop()
+	args := []string{"extract", "-k", "-n", fmt.Sprint(c.N), "-s", url, "--seed-dir", sub(sp.seedDir), sub(sp.index), sub(sp.target)}
+	res, err := c08RunDesyncIn(ks, c.K, root, d, args...)
+	if err != nil {
+		return err
+	}
+	ks.mu.Lock()
+	killed := ks.killed
+	answered := len(ks.requests) - 1
+	ks.mu.Unlock()
+	r.Count(fmt.Sprintf("extract-seeddir|%s|%d|%d|%d", sp.name, c.N, c.K, c.Seed), killed)
+	r.Dist("extract-seeddir:" + sp.name)
+	fail := func(class, what string) {
+		c.What = what
+		r.Fail("predicate", class, what, c)
+	}
+	if !killed {
+		if res != "exit0" {
+			fail("extract/unkilled-run-fails", fmt.Sprintf("extract -k --seed-dir %s %s %s: %s", sp.seedDir, sp.index, sp.target, res))
+		}
+		return nil
+	}
+	res, err = c08RunDesyncIn(ks, 0, root, d, args...)
+	if err != nil {
+		return err
+	}
+	if res != "exit0" {
+		fail("extract/inplace-rerun-fails", fmt.Sprintf("`desync extract -k --seed-dir %s %s %s` killed after %d chunks, then the same command again: %s", sp.seedDir, sp.index, sp.target, answered, res))
+		return nil
+	}
+	if cur, _ := os.ReadFile(filepath.Join(d, "v2")); !bytes.Equal(cur, blob) {
+		fail("extract/inplace-wrong-output", fmt.Sprintf("re-run of extract -k --seed-dir (%s) produced a different file", sp.name))
+	}
+	ks.mu.Lock()
+	nreq := len(ks.requests)
+	ks.mu.Unlock()
+	if allowed := len(idx.Chunks) - answered + c.N; nreq > allowed {
+		fail("extract/inplace-refetches", fmt.Sprintf("re-run (--seed-dir, %s) requested %d chunks, at most %d were missing", sp.name, nreq, allowed))
+	}
+	return nil
+}
+
 func c08ExtractMoreAll(a vh.Args, r *vh.Result, rng *vh.Rand) error {
+	for i, sp := range c08Spellings {
+		c := &c08Case{Kind: "extract-seeddir", Signal: sp.name, BlobLen: 6000, N: 1 + i%2, K: 3 + rng.Intn(8), Seed: rng.U64() % 1000000}
+		if err := c08SeedDir(a, r, c); err != nil {
+			return err
+		}
+	}
 	thorough := a.Tier == "thorough"
 	maxes := []int{48 << 10, 40000}
 	if thorough {
